@@ -10,7 +10,7 @@ _START = engines.use("numpy")
 
 def use_contract(name: str) -> bool:
     """
-    pre: len(name) <= 7
+    pre: len(name) <= 10
     post: __return__
     """
     start = NE()
@@ -30,7 +30,7 @@ def use_contract(name: str) -> bool:
 
 def use_reachability_twin(name: str) -> bool:
     """
-    pre: len(name) <= 7
+    pre: len(name) <= 10
     post: __return__
     """
     # must be REFUTED: CrossHair has to find a name that is accepted
